@@ -12,6 +12,7 @@ import (
 	"math"
 	"math/big"
 	"sort"
+	"strconv"
 	"strings"
 
 	"Havoc/pkg/profile/yaotl/hcldec"
@@ -585,11 +586,21 @@ func SortedKeys(m []KV) []string {
 	return ks
 }
 
-// NumberOf builds the number a literal text denotes: decimal text, or "a/b" for
-// the quotient of two integers at cty's precision (a value with no short decimal
-// spelling; only used where values are handed over as cty values, never rendered
-// by this package's own renderers).
+// NumberOf builds the number a literal text denotes: decimal text, "a/b" for the
+// quotient of two integers at cty's precision (a value with no short decimal
+// spelling), or "f64:<text>" for a number made from a Go float64 (only texts whose
+// float64 is exactly the decimal value are used).  The last two forms are only
+// used where values are handed over as cty values, never rendered by this
+// package's own renderers.
 func NumberOf(s string) cty.Value {
+	if strings.HasPrefix(s, "f64:") {
+		// a number that comes from a Go float64 (53-bit mantissa), as gocty produces
+		f, err := strconv.ParseFloat(s[4:], 64)
+		if err != nil {
+			panic("cfggen: bad float64 literal " + s)
+		}
+		return cty.NumberFloatVal(f)
+	}
 	if i := strings.Index(s, "/"); i > 0 {
 		return cty.MustParseNumberVal(s[:i]).Divide(cty.MustParseNumberVal(s[i+1:]))
 	}
@@ -604,6 +615,9 @@ var (
 
 // NumClass names the class of a number literal for the label histogram.
 func NumClass(s string) string {
+	if strings.HasPrefix(s, "f64:") {
+		return "float64-precision-" + NumClass(s[4:])
+	}
 	if s == "-0" {
 		return "negative-zero"
 	}
@@ -653,4 +667,35 @@ func NumClasses(v Val, nested bool, out map[string]bool) {
 			NumClasses(kv.V, true, out)
 		}
 	}
+}
+
+// ShortestDecimalQuirk reports whether v holds a float64-precision number for
+// which math/big's shortest decimal formatting does not read back as the same
+// float64 (a property of the Go library: some exact powers of two, e.g. 2^64).
+func ShortestDecimalQuirk(v Val) bool {
+	switch v.K {
+	case "n":
+		if strings.HasPrefix(v.S, "f64:") {
+			f, _ := strconv.ParseFloat(v.S[4:], 64)
+			return Float64Quirk(f)
+		}
+	case "l":
+		for _, e := range v.L {
+			if ShortestDecimalQuirk(e) {
+				return true
+			}
+		}
+	case "m":
+		for _, kv := range v.M {
+			if ShortestDecimalQuirk(kv.V) {
+				return true
+			}
+		}
+	}
+	return false
+}
+
+func Float64Quirk(f float64) bool {
+	back, err := strconv.ParseFloat(big.NewFloat(f).Text('f', -1), 64)
+	return err != nil || back != f
 }
